@@ -1036,8 +1036,11 @@ func hasAnyPrefixes(s []byte, listOfPrefixes [][]byte) bool {
 }
 
 func containsPrefix(table *table.Table, prefix []byte) bool {
-	smallValue := table.Smallest()
-	largeValue := table.Biggest()
+	// Compare user keys: with the 8 byte version suffix attached, a smallest key that is a proper
+	// prefix of the dropped prefix (key 61, prefix 6100ff) sorts after it and the table would be
+	// skipped although it holds keys with the prefix.
+	smallValue := y.ParseKey(table.Smallest())
+	largeValue := y.ParseKey(table.Biggest())
 	if bytes.HasPrefix(smallValue, prefix) {
 		return true
 	}
@@ -1050,7 +1053,7 @@ func containsPrefix(table *table.Table, prefix []byte) bool {
 		// In table iterator's Seek, we assume that key has version in last 8 bytes. We set
 		// version=0 (ts=math.MaxUint64), so that we don't skip the key prefixed with prefix.
 		ti.Seek(y.KeyWithTs(prefix, math.MaxUint64))
-		return bytes.HasPrefix(ti.Key(), prefix)
+		return ti.Valid() && bytes.HasPrefix(y.ParseKey(ti.Key()), prefix)
 	}
 
 	if bytes.Compare(prefix, smallValue) > 0 &&
